@@ -36,7 +36,7 @@ func genC20(t *rapid.T) Scenario {
 func judgeC20(sc Scenario) (string, string, bool) {
 	r := Execute(sc)
 	if r.Herr != "" {
-		r.F.Close()
+		r.Close()
 		return "harness", r.Herr, false
 	}
 	r.F.Quiet(600*time.Millisecond, 4*time.Second)
@@ -50,7 +50,7 @@ func judgeC20(sc Scenario) (string, string, bool) {
 	}
 	wg.Wait()
 	time.Sleep(300 * time.Millisecond)
-	r.F.Close()
+	r.Close()
 	conc := 0
 	for _, o := range r.Ops {
 		if o.Op.Conc && !o.Skipped {
